@@ -104,11 +104,11 @@ theorem vRun_coroProg (iter : Bool) (p : HProg Req Resp) :
 
 theorem sendOp_message_cs (card : Card) (hc : csOf card = true) (md : Bool) (pre : List Req) (x : Req) :
     sendOp ⟨card, true, md, false⟩ ⟨pre, false⟩ (.message x false) = .ok (⟨card, true, true, false⟩, ⟨pre ++ [x], false⟩) := by
-  simp [sendOp, hc, upPush]
+  simp [sendOp, sendEff, hc]
 
 theorem sendOp_end_cs (card : Card) (hc : csOf card = true) (md : Bool) (pre : List Req) :
     sendOp ⟨card, true, md, false⟩ ⟨pre, false⟩ (.endStream : SOp Req) = .ok (⟨card, true, md, true⟩, ⟨pre, true⟩) := by
-  simp [sendOp, hc, upEnd]
+  simp [sendOp, sendEff, hc]
 
 theorem sRunL_messages (card : Card) (hc : csOf card = true) (ms : List Req) :
     ∀ (md : Bool) (pre : List Req) (tail : List (SOp Req)),
@@ -168,7 +168,7 @@ theorem call_unaryUnary (h : Handler Req Resp) (hg : h.isGen = false) (r : Req) 
     call .unaryUnary h [r] =
       ⟨1, [some r], true, [], coroResult (hFeed false (h.body (some r)) []).fin⟩ := by
   simp only [call, callWith, callProg, initV, helperProg, unaryUnary, canon, mRunC, init, rpcShape, csOf, ssOf, serverProg]
-  simp [mRun, sendOp, upPush, csOf, downRecv, sRun, sRunL, vRunG, vRun, afterRecv, callUnaryResp, hg, callArg,
+  simp [mRun, sendOp, sendEff, csOf, downRecv, sRun, sRunL, vRunG, vRun, afterRecv, callUnaryResp, hg, callArg,
     vRun_coroProg, hFeed_false]
   cases hf : (hFeed false (h.body (some r)) []).fin with
   | ret x =>
@@ -181,7 +181,7 @@ theorem call_unaryStream (h : Handler Req Resp) (hg : h.isGen = true) (r : Req) 
       ⟨1, [some r], true, (hFeed false (h.body (some r)) []).yields,
         genResult (hFeed false (h.body (some r)) []).fin⟩ := by
   simp only [call, callWith, callProg, initV, helperProg, unaryStream, canon, mRunC, init, rpcShape, csOf, ssOf, serverProg]
-  simp [mRun, sendOp, upPush, csOf, downRecv, sRun, sRunL, vRunG, vRun, afterRecv, callServerStream, hg, callArg,
+  simp [mRun, sendOp, sendEff, csOf, downRecv, sRun, sRunL, vRunG, vRun, afterRecv, callServerStream, hg, callArg,
     vRun_genProg, hFeed_false]
   cases hf : (hFeed false (h.body (some r)) []).fin with
   | ret x =>
